@@ -81,12 +81,18 @@ class HandoverClient(object):
     def recv_records(self, timeout=None):
         """Receive a handover select message from the remote server."""
         octets = self.recv_octets(timeout)
-        records = list(ndef.message_decoder(octets, 'relax')) if octets else []
+        try:
+            records = list(ndef.message_decoder(octets, 'relax')) \
+                if octets else []
+        except ndef.DecodeError as error:
+            log.error(repr(error))
+            records = []
         if records and records[0].type == "urn:nfc:wkt:Hs":
             log.debug("received '{0}' message".format(records[0].type))
-            return list(ndef.message_decoder(octets, 'relax'))
+            return records
         else:
-            log.error("received invalid message %s", binascii.hexlify(octets))
+            log.error("received invalid message %s",
+                      binascii.hexlify(octets or b'').decode())
             return []
 
     def recv_octets(self, timeout=None):
